@@ -420,7 +420,9 @@ func multisetDiff(want, got [][]byte) string {
 
 // ---------------- directchannel over the stub host ----------------
 
-func scenC20Direct(k *K) {
+func scenC20Direct(k *K) { scenDirect(k, "C20", false) }
+
+func scenDirect(k *K, prop string, forceFlood bool) {
 	ctx, cancel := context.WithCancel(context.Background())
 	k.cleanups = append(k.cleanups, cancel)
 	var nodes [2]*Node
@@ -483,14 +485,31 @@ func scenC20Direct(k *K) {
 		}
 	}
 	n := k.C.Range(3, 10)
+	flood := k.C.Chance(1, 3) || forceFlood // many small broken / hostile frames in a row, then valid ones
+	if flood {
+		n = k.C.Range(12, 48)
+		sizes = []int{0, 1, 100, 4096}
+		k.W.Stat("broken-frame-flood")
+	}
 	for i := 0; i < n; i++ {
-		if k.C.Chance(1, 4) {
+		if (!flood && k.C.Chance(1, 4)) || (flood && i < n-3 && k.C.Chance(5, 6)) {
 			// hostile raw frame on a victim's handler
 			victim := k.C.Intn(2)
+			if flood {
+				victim = 0
+			}
 			s, err := k.RawStream(hinc, nodes[victim], directchannel.PROTOCOL)
 			if err == nil {
 				raw, desc := hostileFrame(k)
-				s.WriteRaw(raw, k.C.Chance(3, 4))
+				closeIt := k.C.Chance(3, 4)
+				if flood && k.C.Chance(1, 2) {
+					// announced length within the limit, shorter body, then the stream ends
+					body := bytes.Repeat([]byte("B"), k.C.Range(0, 50))
+					lb := make([]byte, binary.MaxVarintLen64)
+					raw = append(lb[:binary.PutUvarint(lb, uint64(len(body)+k.C.Range(1, 500)))], body...)
+					desc, closeIt = "len-larger-than-body", true
+				}
+				s.WriteRaw(raw, closeIt)
 				k.W.Stat("hostile-frame:" + desc)
 				refused++
 				fr := &frame{to: victim, s: s}
@@ -504,9 +523,12 @@ func scenC20Direct(k *K) {
 			continue
 		}
 		from := k.C.Intn(2)
+		if flood {
+			from = 1 // everything goes to side 0
+		}
 		pl := genPayload(k, sizes, fmt.Sprintf("f%d.%d:", from, i))
 		fault := ""
-		if k.C.Chance(1, 4) && len(pl) > 0 {
+		if (k.C.Chance(1, 4) || (flood && i < n-3)) && len(pl) > 0 {
 			fault = []string{"reset", "truncate"}[k.C.Intn(2)]
 		}
 		before := len(k.W.streams)
@@ -514,7 +536,7 @@ func scenC20Direct(k *K) {
 			return nil, chans[from].Send(ctx, nodes[1-from].ID, pl)
 		})
 		if !op.Done || op.Err != nil {
-			k.Failf("C20/direct/send-error", "Send of %d bytes failed: done=%v err=%v", len(pl), op.Done, op.Err)
+			k.Failf(prop+"/direct/send-error", "Send of %d bytes failed: done=%v err=%v", len(pl), op.Done, op.Err)
 		}
 		k.W.mu.Lock()
 		var st *SimStream
@@ -577,15 +599,15 @@ func scenC20Direct(k *K) {
 				continue
 			}
 			if e.Peer != nodes[1-side].ID {
-				k.Failf("C20/direct/attribution", "side %d got a %d-byte payload attributed to %s, which sent no such frame", side, len(e.Payload), e.Peer)
+				k.Failf(prop+"/direct/attribution", "side %d got a %d-byte payload attributed to %s, which sent no such frame", side, len(e.Payload), e.Peer)
 			}
 			gotB = append(gotB, e.Payload)
 		}
 		if fromHostile != hostileEmpties[side] {
-			k.Failf("C20/direct/delivery", "side %d: the third peer sent %d complete empty frames, %d events were attributed to it", side, hostileEmpties[side], fromHostile)
+			k.Failf(prop+"/direct/delivery", "side %d: the third peer sent %d complete empty frames, %d events were attributed to it", side, hostileEmpties[side], fromHostile)
 		}
 		if ms := multisetDiff(expect[side], gotB); ms != "" {
-			k.Failf("C20/direct/delivery", "side %d: %d complete frames within the limit were sent to it, the adapter emitted %d: %s", side, len(expect[side]), len(gotB), ms)
+			k.Failf(prop+"/direct/delivery", "side %d: %d complete frames within the limit were sent to it, the adapter emitted %d: %s", side, len(expect[side]), len(gotB), ms)
 		}
 	}
 	k.Notes["frames"] = len(frames)
